@@ -46,6 +46,12 @@ PROGRAMS = [
         "section ; ltrehash 4 ; ltinsert 9 9 ; ltrehash 1 ; ltfind 2 ; end ; find 9",
         "find 2 ; erase 3 ; insert 3 30",
         "updatefn 1 1 ; find 1 ; find 9"]),
+    # explicit resize requests parked behind a locked section that changes the hashpower: afterwards they must act on the
+    # table the section left (their answers are checked against the hashpower timeline)
+    ("section-resize-vs-rehash", 0, 4, "1 1 2 2 3 3", [
+        "section ; ltrehash 6 ; ltinsert 9 9 ; end ; find 9",
+        "rehash 3 ; find 1",
+        "reserve 100 ; find 2"]),
     ("section-stream", 0, 16, "1 1 2 2 3 3", [
         "section ; ltinsert 4 4 ; ltstream ; ltfind 4 ; end",
         "find 1 ; find 2 ; insert 5 5",
